@@ -127,9 +127,13 @@ def down (a : Int) : Nat → List Int
   | 0 => []
   | n+1 => a :: down (a-1) n
 
-/-- `forward_indexes.interleave(backward_indexes)`: `(t0+1)..=(len-n)` and `(0..t0).rev()` -/
+/-- `forward_indexes.interleave(backward_indexes)`: `(t0+1)..=max_target_line` and
+`(0..min(t0, max_target_line + 1)).rev()` with `max_target_line = len - n` (lines behind it cannot
+match; when the backward range is clamped the forward range is empty).  `saturating_add` of the Rust
+code is the identity here: line numbers are unbounded integers in the model. -/
 def cands (t0 : Int) (len n : Nat) : List Int :=
-  interleave (up (t0 + 1) ((len : Int) - n - t0).toNat) (down (t0 - 1) t0.toNat)
+  let maxT : Int := (len : Int) - n
+  interleave (up (t0 + 1) (maxT - t0).toNat) (down (min (t0 - 1) maxT) (min t0 (maxT + 1)).toNat)
 
 /-- the first guess of `try_apply_hunk` in normal mode -/
 def firstGuess (v : View α) (len : Nat) (lastOff : Int) : Int :=
